@@ -546,7 +546,10 @@ func (e *Engine) runPath(prefix []int) {
 				e.addFinding("panic", "panic escaped: "+x.msg, x.stack)
 				e.rep.PathsCompleted++
 			default:
-				panic(r)
+				// an interpreter-internal failure (unmodelled corner of the library code being
+				// executed, e.g. reflect on a value kind the engine does not represent): the path
+				// is inconclusive, the checker itself must not die
+				e.rep.Inconclusive = append(e.rep.Inconclusive, fmt.Sprintf("unsupported: interpreter failure at %s: %v", e.where(), r))
 			}
 		}
 		if e.asserted {
